@@ -924,6 +924,80 @@ def grapheme_pair_requests(r, ncorpus, nsynth, per_font):
         groups.append((reg, reqs))
     return groups
 
+
+def trak_streams(ctx, shim, r, nfonts, per_font):
+    """AAT tracking alone (hook: hb_aat_layout_track on a bare buffer prepared by set_unicode_props + form_clusters at each of
+    the three levels).  Correspondence: the crate against the model `Trak.trackAll` the theorems C15_trak_opaque /
+    C15_trak_levels are about (the tracking amount, which the crate interpolates in floats, is read off a one-glyph probe and
+    handed to the model).  Oracle on the crate alone: the positions after tracking are the same at the three levels."""
+    import os
+    fonts = []
+    trakttf = os.path.join(vlib.REPO, "tests", "fonts", "in-house", "TRAK.ttf")
+    if os.path.exists(trakttf):
+        fonts.append(open(trakttf, "rb").read().hex())
+    fonts += [trak_font(r) for _ in range(nfonts)]
+    texts, preps = [], []
+    for fi, hexf in enumerate(fonts):
+        for _ in range(per_font):
+            cps = grapheme_text(r, TRAK_LETTERS)
+            cl = C02.input_clusters(r, len(cps), r.choice([0, 0, 1, 2, 3]))
+            ptem = r.choice(["9", "12", "24", "72", "144", "11.5", "1000", "0"])
+            d = r.choice(["l", "l", "r", "t", "b"])
+            on = [not r.chance(1, 6) for _ in cps]
+            # the mask is set per cluster range by set_masks: constant inside a grapheme for ranges aligned to graphemes
+            st = set(cp_grapheme_starts(cps))
+            for i in range(len(cps)):
+                if i not in st: on[i] = on[i - 1]
+            texts.append((fi, cps, cl, ptem, d, on))
+            for lv in (0, 1, 2):
+                preps.append(f"trak prep {lv} " + ",".join(f"{c:x}:{k}" for c, k in zip(cps, cl)))
+    pr = vlib.run_lines(shim, preps)
+    probes = sorted({(fi, ptem, d) for fi, _, _, ptem, d, _ in texts})
+    po = vlib.run_lines(shim, [f"trak apply {fonts[fi]} {ptem} {d} 0 0 0.0.1" for fi, ptem, d in probes])
+    amount = {}
+    for (fi, ptem, d), x in zip(probes, po):
+        v = [int(z) for z in x.split()[1].split(":")] if x.startswith("ok") else None
+        amount[(fi, ptem, d)] = None if v is None else (v[0] - 1000 if d in "lr" else v[1] - 1000)
+    lines, meta = [], []
+    for ti, (fi, cps, cl, ptem, d, on) in enumerate(texts):
+        t = amount[(fi, ptem, d)]
+        if t is None: continue
+        for lv in (0, 1, 2):
+            p = pr[3 * ti + lv]
+            if not p.startswith("ok"): continue
+            items = [f"{kc}.{1 if o else 0}" for kc, o in zip(p.split()[1].split(","), on)]
+            lines.append(f"trak apply {fonts[fi]} {ptem} {d} {lv} {t} " + ",".join(items))
+            meta.append((ti, lv, t))
+    def classify(ln, out):
+        q = ln.split()
+        return ["level:" + q[5], "dir:" + q[4], "amount:" + ("0" if q[6] == "0" else "nonzero"),
+                "multi-char-grapheme" if ".1." in q[7] else "single-char-graphemes"]
+    ctx.correspond("trak-apply", lines=lines, classify=classify)
+    outs = vlib.run_lines(shim, lines)
+    by_text = {}
+    for (ti, lv, t), ln, x in zip(meta, lines, outs):
+        by_text.setdefault(ti, {})[lv] = (ln, x, t)
+    bad = []
+    nontriv = 0
+    for ti, d3 in by_text.items():
+        if len(d3) < 3: continue
+        if d3[0][2] != 0 and ".1." in d3[1][0].split()[7]: nontriv += 1
+        if not (d3[0][1] == d3[1][1] == d3[2][1]):
+            bad.append((len(texts[ti][1]), ti, d3))
+    bad.sort(key=lambda z: z[0])
+    for _, ti, d3 in bad[:1]:
+        fi, cps, cl, ptem, d, on = texts[ti]
+        ctx.violation(f"AAT tracking depends on the cluster level ({len(bad)} texts): text {' '.join(f'{c:04X}' for c in cps)} clusters {cl} "
+                      f"ptem {ptem} dir {d} amount {d3[0][2]}: level 0 -> {d3[0][1]} | level 1 -> {d3[1][1]} | level 2 -> {d3[2][1]}",
+                      {"stage": "search", "stream": "trak-levels", "text": [f"{c:04X}" for c in cps], "clusters": cl, "ptem": ptem,
+                       "dir": d, "requests": [d3[lv][0] for lv in (0, 1, 2)], "observed": [d3[lv][1] for lv in (0, 1, 2)],
+                       "count": len(bad)})
+    ctx.note_search("trak-levels", len(by_text), nontriv, differences=len(bad),
+                    rule="TRAK.ttf + generated trak fonts x grapheme texts (see shape-levels/graphemes) x sizes x 4 directions; the "
+                         "buffer is prepared by the crate itself (set_unicode_props, form_clusters) at each level, trak bits constant "
+                         "per grapheme; hb_aat_layout_track through the hook: positions identical at the levels 0, 1, 2; non-trivial = "
+                         "non-zero tracking amount and a multi-character grapheme")
+
 def run(ctx):
     ctx.assumptions += [
         "theorems are about the Lean model of the buffer primitives (Buf.lean) and the cluster pipeline pieces (Cluster.lean); the tie "
@@ -958,6 +1032,7 @@ def run(ctx):
                             "(9 .. 1000, 0, fractional) and ppem= drawn per request; 5 directions; 0-2 ranged features (trak, kern, "
                             "liga, mark, ccmp, smcp) with bounds at grapheme starts, sometimes trak=0",
                what_levels="the same grapheme requests")
+    trak_streams(ctx, shim, ctx.rng("trak"), ctx.budget(8, 80), ctx.budget(40, 150))
     morx_relabel(ctx, shim, ctx.rng("morx"), ctx.budget(4000, 60000))
     eval_pairs(ctx, shim, aat_pair_requests(shim, ctx.rng("aat"), ctx.budget(150, 2000), ctx.budget(12, 24)), gen="aat",
                what_relabel="generated AAT fonts with morx AND feat in which 2-4 OpenType tags switch subtables (non-contextual, "
@@ -977,6 +1052,11 @@ def replay(ctx, rp):
             print("request:", q); print("reply  :", x)
             p = C12.parse_pre(x); ks.append(None if p is None else [(c, t) for c, _, t in p])
         return 0 if ks[0] == ks[1] == ks[2] else 1
+    if rp.get("stream") == "trak-levels":
+        o = vlib.run_lines(shim, rp["requests"], nproc=1)
+        for lv, (q, x) in enumerate(zip(rp["requests"], o)):
+            print(f"level {lv}:", " ".join(q.split()[3:7]), q.split()[7], "->", x)
+        return 0 if o[0] == o[1] == o[2] else 1
     if rp.get("stream") == "prims-relabel":
         a, b = vlib.run_lines(shim, [rp["request"], rp["relabelled_request"]], nproc=1)
         print("request    :", rp["request"]); print("reply      :", a[:3000])
